@@ -76,6 +76,23 @@ def draw_cfg(rng, profile, tier):
         if not enabled:
             enabled = {'copy': 1.0, 'sort_order': 1.0, 'filter': 1.0}
     cfg['ops'] = enabled
+    # focus runs (swarm): two or three operations only, a small pool, one
+    # preferred axis, mostly in place -- so that one table collects a history
+    # of the same few operations (state an operation leaves on the table and
+    # a later operation of another kind fails to refresh)
+    if rng.random() < p.get('p_focus', 0.3):
+        names = sorted(enabled)
+        pick = {}
+        for _ in range(rng.choice([2, 2, 3])):
+            rest = {o: enabled[o] for o in names if o not in pick}
+            if not rest:
+                break
+            o = wchoice(rng, rest)
+            pick[o] = 1.0
+        cfg['ops'] = pick
+        cfg['pool'] = rng.choice([2, 2, 3])
+        cfg['len'] = rng.choice([10, 16, 24, 40])
+        cfg['focus'] = {'ax': rng.randrange(2)}
     pert = p.get('perturb') or {x: 1.0 for x in ALL_PERTURB}
     pfrac = rng.uniform(0.3, 1.0)
     cfg['perturb'] = {k: v for k, v in pert.items()
@@ -86,6 +103,9 @@ def draw_cfg(rng, profile, tier):
     kw.update(p.get('kinds', {}))
     if not cfg['readers']:
         kw['spawn'] = 0.0
+    if cfg.get('focus'):
+        kw['op'] = kw.get('op', 10.0) * 2.5
+        kw['new'] = 0.15
     cfg['kinds'] = kw
     cfg['probes'] = p.get('probes', {})
     if p.get('md_cats'):
@@ -102,6 +122,9 @@ class Gen:
         self.rng = rng
         self.cfg = cfg
         self.n_new = 0
+        self.after_fault = None
+        self.reobserve = None
+        self.last_obs = {}
 
     # ---------------------------------------------------------- pieces --
     def ev_new(self, w):
@@ -191,6 +214,9 @@ class Gen:
         slot = w.pool[s]
         ref = slot.ref
         ax = rng.randrange(2)
+        foc = cfg.get('focus')
+        if foc and rng.random() < 0.8:
+            ax = foc['ax']
         n = ref.n(ax)
         ev = {'k': 'op', 'name': name, 'slot': s, 'ax': ax,
               'dst': rng.randrange(8), 'pos': int(rng.random() < 0.3)}
@@ -224,6 +250,8 @@ class Gen:
         elif name == 'sort':
             ev.update(fam=rng.randrange(CB.N_SORT), explicit=rng.randrange(2),
                       fault=self._fault(0), form=rng.randrange(3))
+            if foc and rng.random() < 0.5:
+                ev.update(fam=0, explicit=0, fault=None)   # the default order
         elif name == 'sort_order':
             if n <= 4 and rng.random() < 0.5:
                 code = [rng.randrange(n - j) for j in range(n)]
@@ -344,6 +372,9 @@ class Gen:
                 partners.append(p)
                 used |= set(w.pool[p].ref.ids[ax])
             ev.update(partners=partners, via=rng.randrange(3))
+        if foc and 'inp' in ev and rng.random() < 0.7:
+            ev['inp'] = 1
+            mutating_inplace = True
         if mutating_inplace and not self._free(w, s) and rng.random() < 0.9:
             # scheduling rule: do not mutate a table under a suspended reader
             ev['inp'] = 0
@@ -447,8 +478,40 @@ class Gen:
     # ------------------------------------------------------------- next --
     def next(self, w):
         rng, cfg = self.rng, self.cfg
+        ev = self._next(w)
+        if ev.get('fault') is not None or ev.get('unk') or ev.get('f6'):
+            # a fault is armed in this event: look at the same table right
+            # afterwards (the property's probe, else a read accessor)
+            self.after_fault = ev.get('slot')
+        k = ev.get('k')
+        if k in ('read', 'probe'):
+            self.last_obs[ev.get('slot')] = dict(ev)
+        elif k == 'op' and (ev.get('inp') or ev.get('name') in (
+                'add_metadata', 'del_metadata')) and \
+                ev.get('slot') in self.last_obs and rng.random() < 0.35:
+            # observe - mutate in place - observe again the same way: what an
+            # accessor or writer remembered about the table must not survive
+            # the mutation
+            self.reobserve = ev.get('slot')
+        return ev
+
+    def _next(self, w):
+        rng, cfg = self.rng, self.cfg
         if not w.pool or (len(w.pool) < 2 and rng.random() < 0.7):
             return self.ev_new(w)
+        if self.reobserve is not None:
+            s, self.reobserve = self.reobserve, None
+            if s in self.last_obs and s < len(w.pool):
+                return dict(self.last_obs[s])
+        if self.after_fault is not None:
+            s, self.after_fault = self.after_fault, None
+            if s is not None and s < len(w.pool) and rng.random() < 0.7:
+                if cfg['probes'] and cfg['kinds'].get('probe', 0) > 0:
+                    ev = self.ev_probe(w)
+                else:
+                    ev = self.ev_read(w)
+                ev['slot'] = s
+                return ev
         kw = dict(cfg['kinds'])
         if not w.readers:
             kw['step'] = 0.0
